@@ -1111,6 +1111,7 @@ def kernel_tolerances(chk, prog, funcs_by_unit, table=None, what='dense kernels'
                                           '%s compares `%s` with %s using the absolute tolerance %s: for data of small scale (the property ranges over '
                                           '1e-6..1e6) the test fires on ordinary non-zero values and the kernel no longer returns its textbook value'
                                           % (nm, f.unit.text(m[0])[:60], f.unit.text(m[1])[:20], t)))
+    one_sided_thresholds(chk, prog, funcs_by_unit, R, rule)
     for key, why in table.items():
         if key not in seen and prog.funcs.get(key[0]) is not None:
             chk.instance(R, 'confirmed site %s no longer present (table entry is stale, harmless)' % (key,), 'undecided')
@@ -1146,6 +1147,99 @@ CURVE_TOLERANCE_TABLE = {
 SOLVER_TOLERANCE_TABLE = {
     ('SVD', 0.0, 1e-6): 'eigenvalues below 1e-6 are treated as zero when the singular values are formed (rank decision of the eigen-based SVD)',
     ('SolveLSE', 0.0, 1e-4): 'pivot / zero tests of the Gauss elimination with row exchange (the sites the pivot-guard rule G.pivot relies on)',
+}
+
+
+# every one-sided comparison of a floating quantity with a small non-zero literal in the library (7 sites on the pinned tree), each read:
+ONE_SIDED_TABLE = {
+    ('PCA', 'conv'): 'convergence test on calcConvergence(): sum (t_new - t_old)^2 / (n * sum t_new^2), a relative (dimensionless) measure',
+    ('CPCA', 'conv'): 'same relative measure',
+    ('LVCalc', 'conv'): 'same relative measure',
+    ('UPCA', 'calcConvergence(t_new,t_old)'): 'same relative measure',
+    ('ICA', 'calcConvergence(w_new,w)'): 'same relative measure',
+    ('GetLVCCutoff_', '(fabs(next-max)/next)'): 'relative difference between two R2/Q2 values',
+    ('GetLVCCutoff_', '(fabs(prev-max)/prev)'): 'relative difference between two R2/Q2 values',
+}
+
+
+def _small_literal(n):
+    v = strip(n)
+    while v.get('kind') == 'ParenExpr':
+        v = strip(kids(v)[0])
+    sign = 1.0
+    if v.get('kind') == 'UnaryOperator' and v.get('opcode') in ('+', '-'):
+        sign = -1.0 if v['opcode'] == '-' else 1.0
+        v = strip(kids(v)[0])
+    if v.get('kind') in ('FloatingLiteral', 'IntegerLiteral'):
+        try:
+            return sign * float(v.get('value'))
+        except (TypeError, ValueError):
+            return None
+    return None
+
+
+def one_sided_thresholds(chk, prog, funcs_by_unit, R, rule):
+    """`x < 1e-8`, `fabs(x) <= EPS`, `x > -tol` ...: an absolute threshold on x.  Confirmed sites (dimensionless measures) are tabled; a tested
+    expression that is visibly a ratio or a convergence measure is left undecided; anything else is reported"""
+    for unit, names in funcs_by_unit.items():
+        for nm in names:
+            f = prog.funcs.get(nm)
+            if f is None or f.body is None:
+                continue
+            inapprox = set()
+            for n in walk(f.body):
+                if n.get('kind') == 'BinaryOperator' and n.get('opcode') == '&&' and match_approx(n):
+                    for m in walk(n):
+                        inapprox.add(id(m))
+            defs = {}
+            for n in walk(f.body):
+                if n.get('kind') == 'BinaryOperator' and n.get('opcode') == '=' and strip(kids(n)[0]).get('kind') == 'DeclRefExpr':
+                    defs.setdefault(strip(kids(n)[0])['referencedDecl'].get('name'), []).append(kids(n)[1])
+                if n.get('kind') == 'VarDecl' and kids(n):
+                    defs.setdefault(n.get('name'), []).append(kids(n)[-1])
+            for n in walk(f.body):
+                if id(n) in inapprox or not (n.get('kind') == 'BinaryOperator' and n.get('opcode') in ('<', '<=', '>', '>=')):
+                    continue
+                a, b = kids(n)
+                la, lb = _small_literal(a), _small_literal(b)
+                if (la is None) == (lb is None):
+                    continue
+                v = la if la is not None else lb
+                other = strip(b if la is not None else a)
+                if v == 0 or abs(v) >= 0.5 or not fe.is_float_type(other):
+                    continue
+                txt = f.unit.text(other).replace(' ', '')
+                desc = '%s %s: `%s` (literal %g)' % (f.unit.where(n), nm, f.unit.text(n)[:60], v)
+                if (nm, txt) in ONE_SIDED_TABLE:
+                    chk.instance(R, desc + ': confirmed site (%s)' % ONE_SIDED_TABLE[(nm, txt)])
+                    continue
+
+                def dimensionless(e, depth=0):
+                    e = strip(e)
+                    while e.get('kind') == 'ParenExpr':
+                        e = strip(kids(e)[0])
+                    if e.get('kind') == 'BinaryOperator' and e.get('opcode') == '/':
+                        return True
+                    if e.get('kind') == 'CallExpr' and callee_name(e) in ('calcConvergence',):
+                        return True
+                    if e.get('kind') == 'CallExpr' and callee_name(e) in ('fabs', 'sqrt') and call_args(e):
+                        return dimensionless(call_args(e)[0], depth)
+                    if e.get('kind') == 'DeclRefExpr' and depth < 2:
+                        ds = defs.get(e['referencedDecl'].get('name'), [])
+                        return bool(ds) and all(dimensionless(d, depth + 1) for d in ds)
+                    return False
+                if dimensionless(other):
+                    chk.instance(R, desc + ': the tested value is a ratio / convergence measure (possibly dimensionless): not decided', 'undecided')
+                    continue
+                chk.instance(R, desc + ': one-sided absolute threshold, not a confirmed site', 'refuted')
+                chk.violation(Finding(rule, rel(f.file), nm, 'threshold:%s' % txt[:40], f.unit.where(n),
+                                      '%s compares `%s` with the literal %g: an absolute threshold on a quantity that scales with the data -- for data of small '
+                                      'scale (or a legitimately small value) the branch is taken on ordinary non-zero values' % (nm, f.unit.text(other)[:60], v)))
+
+
+KMEANS_TOLERANCE_TABLE = {
+    ('shouldStop', None, 1e-3): 'the documented convergence test of k-means: centroid coordinate against its previous value (decided by KM.converged)',
+    ('MDC', 0.0, 1e-3): 'stop heuristic of MDC: counts objects whose information value has dropped to zero (a dimensionless rank product, not a data-scaled quantity)',
 }
 
 
